@@ -111,6 +111,23 @@ def worker(mod_json, wseed, nvalues, subsets):
                         if a != b:
                             raise Fail(h(ttext, "bytes", s, fs), "%s ::= %s\nvalue %s\n%s differs between option sets:\n  %s: %s\n  %s: %s" % (
                                 tname, ttext, val_repr(v), s, BASE, str(a)[:300], fs, str(b)[:300]), dict(replay, flags=list(fs)))
+                    # transcoding chain: what a decoder built with these options leaves in memory must encode to the
+                    # same bytes as in the baseline build (DER -> UPER -> OER -> XER -> UPER)
+                    if "-no-gen-PER" not in fs and "-no-gen-OER" not in fs and not (
+                            "-fno-constraints" in fs and ("cons.from" in feats or "NumericString" in feats)):
+                        if "chain" not in base_reply:
+                            base_reply["chain"] = builds[0][2].cmd("rt %s %s uper,oer,xer,uper" % (tname, drv.hexs(refder)))
+                        rc_ = sess.cmd("rt %s %s uper,oer,xer,uper" % (tname, drv.hexs(refder)))
+                        acc.extra["chain_comparisons"] += 1
+                        for k_ in ("b0", "b1", "b2", "b3"):
+                            a, b = base_reply["chain"].get(k_), rc_.get(k_)
+                            if a is None or b is None:
+                                break
+                            if a != b:
+                                raise Fail(h(ttext, "chain", k_, fs), "%s ::= %s\nvalue %s\nstep %s of the chain DER->UPER->OER->XER->UPER "
+                                           "gives other bytes than in the baseline build:\n  %s: %s\n  %s: %s" % (
+                                               tname, ttext, val_repr(v), k_, BASE, str(a)[:300], fs, str(b)[:300]),
+                                           dict(replay, flags=list(fs)))
                     # cross decoding: baseline bytes into this build
                     for s, dsyn in (("uper", "uper"), ("oer", "oer"), ("xer", "xer")):
                         a = base_reply.get(s)
